@@ -18,7 +18,8 @@ Notation Matc := (Mat (T:=T)).
 Definition onat (n : nat) : T := oZ Op (Z.of_nat n).
 (* np.finfo(complex).eps = 2^-52 *)
 Definition oeps : T := odya Op 1 (-52).
-Definition omax (a b : T) : T := oite Op (ogt Op a b) a b.
+(* max(a, b) = (a + b + |a - b|)/2: branch-free, so that it is an interval operation as well *)
+Definition omax (a b : T) : T := odiv Op (oadd Op (oadd Op a b) (oabs Op (osub Op a b))) (o2 Op).
 Definition maxlist (l : list T) : T := fold_right omax (o0 Op) l.
 (* indicator of a comparison, so that counts are sums *)
 Definition ind (b : B) : T := oite Op b (o1 Op) (o0 Op).
@@ -46,7 +47,7 @@ Definition kron (r2 c2 rows cols : nat) (A Bm : Matc) : Matc :=
 Fixpoint pauli_chain (n idx : nat) : Matc :=
   match n with
   | O => [[c1 Op]]
-  | S n' => kron (2 ^ n') (2 ^ n') (2 ^ n) (2 ^ n) (sigma (idx / 4 ^ n')) (pauli_chain n' (idx mod 4 ^ n'))
+  | S n' => kron (2 ^ n') (2 ^ n') (2 * 2 ^ n') (2 * 2 ^ n') (sigma (idx / 4 ^ n')) (pauli_chain n' (idx mod 4 ^ n'))
   end.
 
 Definition mdivr (d : nat) (A : Matc) (x : T) : Matc := mbuild d d (fun i j => cdivr Op (mget Op A i j) x).
